@@ -21,7 +21,24 @@ def main():
     ap.add_argument("--seed", default="0")
     ap.add_argument("--in-place", action="store_true")
     ap.add_argument("--suite", action="store_true", help="also run the repo's test suite on the patched tree")
+    ap.add_argument("--private-copy", action="store_true",
+                    help="run the checks from a private copy of /verif (own Lean build directory), so that parallel "
+                         "instances do not wait for, or rebuild, each other's generated Lean files")
     a = ap.parse_args()
+    VC = V
+    if a.private_copy:
+        VC = f"/tmp/vseed_{os.getpid()}/verif"
+        os.makedirs(os.path.dirname(VC), exist_ok=True)
+        subprocess.run(["rsync", "-a", "--exclude", ".git", "--exclude", "replays", "--exclude", "seeded",
+                        "--exclude", "evidence_other", V + "/", VC + "/"], check=True)
+    try:
+        _main(a, VC)
+    finally:
+        if a.private_copy:
+            shutil.rmtree(os.path.dirname(VC), ignore_errors=True)
+
+
+def _main(a, VC):
     sd = os.path.join(V, "seeded")
     ids = a.ids or sorted(d for d in os.listdir(sd) if os.path.isdir(os.path.join(sd, d)))
     results = {}
@@ -54,12 +71,12 @@ def main():
                     rec["suite"] = out2.strip().splitlines()[0] if out2.strip() else ""
                     rec["suite_ok"] = rc2 == 0
                 for p in props:
-                    if not os.path.exists(os.path.join(V, "harness", p.lower() + ".py")):
+                    if not os.path.exists(os.path.join(VC, "harness", p.lower() + ".py")):
                         rec["checks"][p] = dict(exit=None, note="check not built")
                         continue
                     t0 = time.time()
                     envc = dict(os.environ, VERIF_REPO=tree, VERIF_SEED=a.seed)
-                    rcc, outc = sh([os.path.join(V, "check"), p, "--tier", a.tier], cwd=V, env=envc, timeout=3000)
+                    rcc, outc = sh([os.path.join(VC, "check"), p, "--tier", a.tier], cwd=VC, env=envc, timeout=3000)
                     vio = [l for l in outc.splitlines() if l.startswith("VIOLATION")]
                     rec["checks"][p] = dict(exit=rcc, violation=vio[:2], wall_s=round(time.time() - t0, 1),
                                             tail=outc.strip().splitlines()[-1][-200:] if outc.strip() else "")
